@@ -1,5 +1,5 @@
 CONSTANTS
-  Programs <- SAugSubSet
+  Programs <- Space
   CanonOrder <- MCOrder2
 INIT Init
 NEXT Next
